@@ -89,6 +89,12 @@ def write_layout(root, groups, layout):
                 for g, lo, hi in f['chunks']]
         kind = f['kind']
         name = f'res_{i:02d}'
+        if f.get('twin') is not None and kind == 'gz':
+            # results_N.json and results_N.json.gz side by side (two runs of
+            # one task, one of them compressed): same stem, different trials
+            j = f['twin'] % len(layout['files'])
+            if layout['files'][j]['kind'] == 'json' and j != i:
+                name = f'res_{j:02d}'
         # a file holding one record may be a bare dict (what
         # BaseSimulation.save_results writes) instead of a one-element list
         single = recs[0] if (len(recs) == 1 and f.get('bare')) else recs
@@ -293,7 +299,9 @@ def layouts(draw, groups):
                 f['chunks'].append([gi, lo, hi])
             else:
                 files.append({'kind': draw(st.sampled_from(KINDS)), 'zip': draw(st.integers(0, 1)),
-                              'bare': draw(st.booleans()), 'chunks': [[gi, lo, hi]]})
+                              'bare': draw(st.booleans()),
+                              'twin': draw(st.one_of(st.none(), st.integers(0, 7))),
+                              'chunks': [[gi, lo, hi]]})
     perm = draw(st.permutations(list(range(len(files)))))
     files = [files[i] for i in perm]
     return {'files': files, 'paths': draw(st.sampled_from(['dir', 'files'])),
